@@ -597,7 +597,7 @@ class Poisson(BaseDatafit):
             grad[j] = 0.
             for i in range(X_indptr[j], X_indptr[j + 1]):
                 grad[j] += X_data[i] * (
-                    np.exp(Xw[X_indices[i]] - y[X_indices[i]])) / len(y)
+                    np.exp(Xw[X_indices[i]]) - y[X_indices[i]]) / len(y)
         return grad
 
     def gradient_scalar_sparse(self, X_data, X_indptr, X_indices, y, Xw, j):
